@@ -191,8 +191,8 @@ class HTTP(BaseComponent):
 
                 self.fire(write(sock, body))
 
-                if res.chunked:
-                    self.fire(write(sock, b'0\r\n\r\n'))
+            if res.chunked:
+                self.fire(write(sock, b'0\r\n\r\n'))
 
             if not res.stream:
                 if res.close:
